@@ -215,7 +215,7 @@ func (c *treeCtx) atomConstraint(m *ynode, a Atom) {
 			it = append(it, ystr(v))
 		}
 		m.put(a.Kind, yseq(it...))
-	case "lessThanProperty", "lessThanOrEqualsToProperty", "equalsToProperty", "disjointWithProperty":
+	case "lessThanProperty", "lessThanOrEqualsToProperty", "equalsToProperty", "disjointWithProperty", "moreThanProperty", "moreThanOrEqualsToProperty":
 		m.put(a.Kind, ystr(c.pathText(*a.Other)))
 	case "datatype":
 		m.put(a.Kind, ystr(compactDt(a.Dt)))
